@@ -147,3 +147,85 @@ func H_C07_file_shrink() {
 	vAssert(err == nil && out2 == out1, "C07 shrink: second run leaves the file unchanged")
 	vReach("end")
 }
+
+// layouts other than gofmt's (still valid Go): a file without annotations comes back byte-identical; an
+// annotated one changes inside the tag literals only, and a second run changes nothing
+func vSetLayout(i int) {
+	switch i {
+	case 0:
+		vIndent, vGap, vNoFinalLine = "\t", " ", false
+	case 1:
+		vIndent, vGap, vNoFinalLine = "    ", " ", false // spaces instead of tabs
+	case 2:
+		vIndent, vGap, vNoFinalLine = "\t", "   ", false // wide gaps
+	case 3:
+		vIndent, vGap, vNoFinalLine = "", " ", true // no indentation, no final newline
+	case 4:
+		vIndent, vGap, vNoFinalLine = "\t \t", "\t", false
+	}
+}
+
+const vNLayouts = 5
+
+func H_C07_layouts_plain() {
+	vSetLayout(vndChoice("layout", vNLayouts))
+	defer vSetLayout(0)
+	structs := []vStructSrc{{name: "A", fields: []vField{
+		{name: "X", typ: "string", hasTag: true, tag: "json:\"x\"   valid:\"required\"", comment: "//  plain   comment"},
+		{name: "LongerName", typ: "int"},
+		{name: "Y", typ: "map[string]int", hasTag: true, tag: "json:\"y\""},
+	}}}
+	src, f := vBuildSource("import (\"fmt\")\nvar   _ = fmt.Sprint( 1,2 )\n", structs, "func F( ) { }\n")
+	out1, err := vRunInjector("l.go", src, f)
+	vAssert(err == nil && out1 == src, "C07 layouts: a file without @tag annotations is unchanged whatever its layout")
+	vReach("end")
+}
+
+func H_C07_layouts_annotated() {
+	vSetLayout(vndChoice("layout", vNLayouts))
+	defer vSetLayout(0)
+	mk := func(x, z string) []vStructSrc {
+		return []vStructSrc{{name: "A", fields: []vField{
+			{name: "X", typ: "string", hasTag: true, tag: x, comment: "// @tag valid:\"required\""},
+			{name: "LongerName", typ: "int"},
+			{name: "Z", typ: "[]byte", hasTag: true, tag: z, comment: "//   z  @tag json:\"zz\" gorm:\"-\""},
+		}}}
+	}
+	pre, post := "var   V=1\n", "func F( ) { }\n"
+	src, f := vBuildSource(pre, mk("json:\"x\"", "json:\"z\"  yaml:\"z\""), post)
+	out1, err := vRunInjector("l.go", src, f)
+	vAssert(err == nil, "C07 layouts: first run succeeds")
+	src2, f2 := vBuildSource(pre, mk("json:\"x\" valid:\"required\"", "json:\"zz\" yaml:\"z\" gorm:\"-\""), post)
+	vAssert(out1 == src2, "C07 layouts: first run changes the tag literals only")
+	if out1 != src2 {
+		return
+	}
+	out2, err := vRunInjector("l.go", src2, f2)
+	vAssert(err == nil && out2 == out1, "C07 layouts: second run leaves the file unchanged")
+	vReach("end")
+}
+
+// a field that carries @tag text in the comment above it as well as in its trailing comment: the
+// trailing comment is the annotation; processing converges after the first run
+func H_C07_doc_and_trailing() {
+	v := vTagVal("v", 2, true)
+	mk := func(x string) []vStructSrc {
+		return []vStructSrc{{name: "A", fields: []vField{
+			{name: "X", typ: "string", hasTag: true, tag: x, doc: "// X is the name @tag gorm:\"column:x\"", comment: "// @tag valid:\"" + v + "\""},
+			{name: "Y", typ: "int", hasTag: true, tag: "json:\"y\"", doc: "// @tag valid:\"required\""},
+		}}}
+	}
+	src, f := vBuildSource("", mk("json:\"x\""), "")
+	out1, err := vRunInjector("d.go", src, f)
+	vAssert(err == nil, "C07 doc+trailing: first run succeeds")
+	src2, f2 := vBuildSource("", mk("json:\"x\" valid:\""+v+"\""), "")
+	vAssert(out1 == src2, "C07 doc+trailing: the trailing comment's keys are injected, the comment above the field is text")
+	if out1 != src2 {
+		return
+	}
+	out2, err := vRunInjector("d.go", src2, f2)
+	vAssert(err == nil && out2 == out1, "C07 doc+trailing: second run leaves the file unchanged")
+	out3, err := vRunInjector("d.go", out2, f2)
+	vAssert(err == nil && out3 == out1, "C07 doc+trailing: third run leaves the file unchanged")
+	vReach("end")
+}
